@@ -326,6 +326,17 @@ class Ctx:
         return r, s
 
     def prove(self, goal, timeout_ms=None, upto=None, kind="prove", assume_defd=True, max_iter=40, all_relevant=False):
+        """two stages: relevance from the goal's generators only; if that leaves an abstract counterexample ('sat'), once more
+        with the generators mentioned by the domain assumptions active from the start (an assumption the model happens to
+        satisfy still ties its generators, e.g. cos/sin of a stored angle, to the goal)"""
+        r = self._prove(goal, timeout_ms, upto, kind, assume_defd, max_iter, all_relevant, seed_dom=False)
+        if r[0] == "sat" and kind in ("prove", "defd") and not all_relevant and any(f.kind == "dom" and self.fact_gens(f) for f in self.facts):
+            r2 = self._prove(goal, timeout_ms, upto, kind, assume_defd, max_iter, all_relevant, seed_dom=True)
+            if r2[0] != "unknown":
+                return r2
+        return r
+
+    def _prove(self, goal, timeout_ms=None, upto=None, kind="prove", assume_defd=True, max_iter=40, all_relevant=False, seed_dom=True):
         """CEGAR over the fact set: returns (verdict, model_or_None, info).
         verdict 'unsat' = goal is entailed (sound whatever subset was used);
         'sat' = abstract counterexample satisfying every relevant fact; 'unknown'."""
@@ -356,9 +367,10 @@ class Ctx:
         goal_gens = set(active_gens)
         # domain assumptions are always relevant, so the generators they mention are too (an assumption that the
         # current model happens to satisfy still constrains them)
-        for f in pool:
-            if f.kind == "dom":
-                active_gens.update(self.fact_gens(f))
+        if seed_dom:
+            for f in pool:
+                if f.kind == "dom":
+                    active_gens.update(self.fact_gens(f))
         close()
         # distance of every fact from the goal in the generator-sharing graph
         layer = {}
